@@ -216,6 +216,10 @@ def one_connection(pt, ex, origin, host_for_connect, verify_ca, expect_cert_name
         ctx.load_verify_locations(verify_ca)
         ctx.check_hostname = True
         ctx.verify_mode = ssl.CERT_REQUIRED
+        if pt.get('gullible_client'):
+            # a client that accepts ANY certificate: whatever it is shown, nothing may flow to or from a bad origin
+            ctx.check_hostname = False
+            ctx.verify_mode = ssl.CERT_NONE
         a.settimeout(60)
         try:
             if early:
@@ -354,7 +358,7 @@ def main():
         opted = pt['optout'] not in (False, 'bystander_only')
         verify_ca = PKI + ('/oca-cert.pem' if opted else '/ca-cert.pem')
         conns = []
-        n_conn = 2 if pt['cache'] == 'warm' else 1
+        n_conn = (3 if pt.get('gullible_client') else 2) if pt['cache'] == 'warm' else 1
         for i in range(n_conn):
             conns.append(one_connection(pt, ex, origin, host, verify_ca, name_for_cert))
         # warm points: a SECOND host that reaches the same origin (same origin certificate, valid for
